@@ -181,6 +181,7 @@ pub fn analyse(log: &[Rec], fams: &[Fam], meta: &Meta) -> Analysis {
     let mut dg_next_match: [usize; 2] = [0, 0];
     let mut dg_occ = [0usize; 2];
     let mut dg_licence = [0u64; 2];
+    let mut dg_drained = [false; 2];
     let mut dg_delivered = [0u64; 2];
     let mut dg_received = [0u64; 2];
     let mut dg_wire_sent = [0u64; 2];
@@ -580,6 +581,7 @@ pub fn analyse(log: &[Rec], fams: &[Fam], meta: &Meta) -> Analysis {
                             cx.fail(Fam::Dgram, i, format!("send-refused|{res}"), format!("ep{e}: send_datagram with a {}-byte target host failed with {res} on a healthy connection", dg_host_len.get(id).copied().unwrap_or(0)));
                         }
                     }
+                    Api::Note(n) if n == "dg-drained" => dg_drained[e] = true,
                     Api::DgRecv { id, fields_ok } => {
                         cnt.add("dgram_received", 1);
                         dg_received[e] += 1;
@@ -728,7 +730,8 @@ pub fn analyse(log: &[Rec], fams: &[Fam], meta: &Meta) -> Analysis {
     }
     // D2: loss only when the buffer was full (or the connection ended)
     for e in 0..2 {
-        let still_queued = dg_occ[e] as u64;
+        // after the harness's final drain (SIM: nothing in flight) the real queue is empty: what the model still holds was dropped
+        let still_queued = if meta.sim && dg_drained[e] { 0 } else { dg_occ[e] as u64 };
         if !meta.abnormal_end {
             let lost = dg_delivered[e].saturating_sub(dg_received[e]).saturating_sub(still_queued.min(dg_delivered[e]));
             // occupancy accounting already removes licensed losses: delivered = received + queued + licensed
